@@ -677,13 +677,14 @@ type SmtDef struct {
 }
 
 type AxiomDef struct {
-	Name string
-	Raw  string // raw SMT-LIB formula (smtaxiom); Expr is nil then
-	Expr *SExpr
-	Pkg  string
-	File string
-	Line int
-	Src  string
+	FromLemma bool // derived from an smtlemma: proved in the same run, not an assumption
+	Name      string
+	Raw       string // raw SMT-LIB formula (smtaxiom); Expr is nil then
+	Expr      *SExpr
+	Pkg       string
+	File      string
+	Line      int
+	Src       string
 }
 
 type GhostDef struct {
@@ -723,6 +724,10 @@ type FuncContract struct {
 	Asserts  []*AssertAt
 	Uses     []string // axioms made available to this function's obligations
 	IsLemma  bool     // no function body: the ensures clauses are proved from the used axioms alone
+	Induct   string   // smtlemma: induction variable (Int, >= 0)
+	RawVars  string   // smtlemma: SMT binder list of the universally quantified variables, e.g. "(a (Array Int Int)) (o Int)"
+	RawClaim string   // smtlemma: SMT formula over RawVars and Induct
+	RawPat   string   // smtlemma: trigger used when the proven lemma is made available as an axiom
 	File     string
 	Line     int
 	Reason   string // free text for trusted contracts
@@ -748,7 +753,8 @@ var clauseKeywords = map[string]bool{
 	"props": true, "requires": true, "ensures": true, "modifies": true, "loop": true,
 	"invariant": true, "trusted": true, "inline": true, "mode": true, "params": true,
 	"maypanic": true, "fdef": true, "pure": true, "noalloc": true, "set": true, "reason": true,
-	"uses": true, "lemma": true, "exit": true, "free_ensures": true, "smtaxiom": true, "smtdef": true, "guarded": true, "assert": true,
+	"uses": true, "lemma": true, "exit": true, "free_ensures": true,
+	"smtlemma": true, "induct": true, "vars": true, "claim": true, "pattern": true, "smtaxiom": true, "smtdef": true, "guarded": true, "assert": true,
 }
 
 type rawLine struct {
@@ -844,6 +850,10 @@ func ParseSpecFile(path, pkgPath string) (*SpecFile, error) {
 			cur = &FuncContract{Key: "lemma " + strings.TrimSpace(rest), Pkg: pkgPath, Loops: map[int]*LoopSpec{}, File: path, Line: rl.line, IsLemma: true}
 			curLoop = nil
 			sf.Funcs = append(sf.Funcs, cur)
+		case "smtlemma":
+			cur = &FuncContract{Key: "lemma " + strings.TrimSpace(rest), Pkg: pkgPath, Loops: map[int]*LoopSpec{}, File: path, Line: rl.line, IsLemma: true}
+			curLoop = nil
+			sf.Funcs = append(sf.Funcs, cur)
 		case "ghost":
 			fs := strings.Fields(rest)
 			if len(fs) < 2 {
@@ -864,6 +874,14 @@ func ParseSpecFile(path, pkgPath string) (*SpecFile, error) {
 				cur.Props = strings.Fields(rest)
 			case "uses":
 				cur.Uses = append(cur.Uses, strings.Fields(strings.ReplaceAll(rest, ",", " "))...)
+			case "induct":
+				cur.Induct = strings.TrimSpace(rest)
+			case "vars":
+				cur.RawVars = strings.TrimSpace(rest)
+			case "claim":
+				cur.RawClaim = strings.TrimSpace(rest)
+			case "pattern":
+				cur.RawPat = strings.TrimSpace(rest)
 			case "params":
 				cur.Params = strings.Fields(strings.ReplaceAll(rest, ",", " "))
 			case "trusted":
